@@ -30,12 +30,24 @@ def sh(cmd, cwd, env=None, timeout=1200):
 
 
 def main():
-    args = [a for a in sys.argv[1:] if not a.startswith("--")]
-    allprops = "--all-props" in sys.argv
+    argv = sys.argv[1:]
+    src_override = name_override = None
+    if "--src" in argv:
+        i = argv.index("--src")
+        src_override = argv[i + 1]
+        del argv[i:i + 2]
+    if "--name" in argv:
+        i = argv.index("--name")
+        name_override = argv[i + 1]
+        del argv[i:i + 2]
+    args = [a for a in argv if not a.startswith("--")]
+    allprops = "--all-props" in argv
     prop = args[0]
     ks = args[1:] or sorted(os.path.basename(d)[len("change"):] for d in glob.glob("/tmp/wt/%s/_out/change*" % prop))
+    if src_override:
+        ks = [name_override.split("-")[-1] if name_override else "x"]
     for k in ks:
-        src = "/tmp/wt/%s/_out/change%s" % (prop, k)
+        src = src_override or "/tmp/wt/%s/_out/change%s" % (prop, k)
         patch = os.path.join(src, "patch.diff")
         demos = glob.glob(os.path.join(src, "*.rs"))
         if not os.path.exists(patch) or not demos:
